@@ -202,7 +202,7 @@ def r3_ownership(ctx):
             ids = [x for x in subexprs(e) if x[0] == "call" and x[1] == "better_any::Tid::id"]
             ctx.check(len(ids) == 1 and ids[0][3]["f"].get("gargs") == ["T"], "C01.R3", f.key, nm + ":key", "map key is %s, not T::id() of the operation's own T" % expr_str(e), loc=f.loc(t.get("line")))
     ctx.count("statemap_primitive_call_sites", n)
-    ctx.floor("C01.R3", "primitive operations on a state map", n, 14)
+    ctx.floor("C01.R3", "primitive operations on a state map", n, 8)
 
 
 def r4_push_pop(ctx):
